@@ -28,11 +28,12 @@ import numpy as np
 from harness.common import frac, deep_compare
 
 PID = "C03"
-THEOREMS = [
-    "PorepyVerif.C03.tree_jac_is_fderiv",
-    "PorepyVerif.C03.tree_jac_directional",
-    "PorepyVerif.C03.assemble_jac_is_derivative",
-]
+_THM = ["tree_jac_is_fderiv", "tree_jac_directional", "assemble_jac_is_fderiv", "assemble_jac_is_derivative",
+        "var_leaf_sound", "const_leaf_sound", "add_sound", "sub_sound", "mul_sound", "div_sound", "pow_const_sound",
+        "pow_int_sound", "matmul_sound", "maximum_sound", "exp_sound", "log_sound", "sin_sound", "cos_sound", "tan_sound",
+        "sinh_sound", "cosh_sound", "tanh_sound", "arctan_sound", "abs_sound", "l2_norm_sound", "characteristic_sound",
+        "heaviside_sound"]
+THEOREMS = ["PorepyVerif.C03." + t for t in _THM]
 LEAN_MODULES = ["PorepyVerif.C03.Props"]
 AUDIT = "PorepyVerif/C03/Audit.lean"
 DRIVER = "PorepyVerif/C03/Driver.lean"
@@ -218,3 +219,460 @@ def audit_trees(model, x):
         k = _kind(op, rec)
         census[k] = census.get(k, 0) + 1
     return census, rec, nodes
+
+
+# ------------------------------------------------------------------------------------------------ states and directions
+H = 1e-3          # finite-difference step (Richardson on H, H/2; consistency against H/2, H/4)
+RTOL = 1e-6       # relative tolerance of the oracle (per row, relative to |J||delta| + |fd|)
+ATOL = 1e-9
+MAX_ATTEMPTS = 6  # re-draws of the state when it is too close to a kink of max/abs/norm/characteristic
+
+_STATS = {"kink_redraws": 0, "fd_inconclusive": 0, "max_rel_err": 0.0, "checks": 0, "rows": 0}
+
+
+def _draw(model, case, attempt):
+    """Deterministic (state, previous time step state, direction) of a case: everything derives from the integers
+    stored in the case, so a replay does not depend on the seed of the run."""
+    es = model.equation_system
+    n = es.num_dofs()
+    r = random.Random(f"C03-state-{case['state_seed']}-{attempt}")
+    base = _base_state(model)
+    x = base + case["amp"] * np.array([r.uniform(-1, 1) for _ in range(n)])
+    xprev = case["prev_amp"] * np.array([r.uniform(-1, 1) for _ in range(n)])
+    rd = random.Random(f"C03-dir-{case['dir_seed']}")
+    kind = case["dir_kind"]
+    if kind == "dense" or n == 0:
+        d = np.array([rd.uniform(-1, 1) for _ in range(n)])
+    elif kind == "block":
+        vars_ = [v for v in es.variables if len(es.dofs_of([v])) > 0]
+        v = vars_[rd.randrange(len(vars_))]
+        d = np.zeros(n)
+        dofs = es.dofs_of([v])
+        d[dofs] = [rd.uniform(-1, 1) for _ in dofs]
+    else:  # unit
+        d = np.zeros(n)
+        d[rd.randrange(n)] = rd.choice([1.0, -1.0])
+    return x, xprev, d
+
+
+def _base_state(model):
+    if not hasattr(model, "_c03_base"):
+        model._c03_base = model.equation_system.get_variable_values(iterate_index=0).copy()
+    return model._c03_base
+
+
+def _kink_functions(model, ids, x):
+    """Arguments g of the kink conditions (g = 0 is the kink) of the given evaluate-nodes at state x."""
+    es = model.equation_system
+    rec = _recorder(model)
+    rec.evaluate(list(es.equations.values()), es, False, x)
+    out = {}
+    for i, (op, fn, pargs) in ids.items():
+        cv = [np.atleast_1d(np.asarray(rec.results[id(c)], dtype=float)) for c in op.children]
+        if fn == "maximum":
+            g = cv[0] - cv[1]
+        elif fn in ("abs", "heaviside"):
+            g = cv[0]
+        elif fn == "l2_norm":
+            dim = int(pargs[0])
+            g = cv[0] if dim == 1 else np.linalg.norm(np.reshape(cv[0], (dim, -1), order="F"), axis=0)
+        elif fn == "characteristic_function":
+            g = np.abs(cv[0]) - float(pargs[0])
+        elif fn == "safe_power":
+            g = np.abs(cv[0]) - float(pargs[2])
+        else:
+            continue
+        out[i] = (fn, g)
+    return out
+
+
+def _kink_nodes(rec, nodes):
+    """evaluate-nodes of kinked library functions whose arguments depend on the state"""
+    import porepy as pp
+    ids = {}
+    for op in nodes:
+        if op.is_leaf() or op.operation.value != "evaluate" or id(op) not in rec.results:
+            continue
+        where, fn = _func_name(op)
+        if where != "lib" or fn not in KINK_FUNCS:
+            continue
+        if not any(_tag(rec.results[id(c)]) == "A" for c in op.children):
+            continue
+        inner = op.func.__self__._func
+        pargs = []
+        while isinstance(inner, functools.partial):
+            pargs = list(inner.args) + pargs
+            inner = inner.func
+        ids[id(op)] = (op, fn, pargs)
+    return ids
+
+
+def _smooth_enough(model, ids, x, d):
+    """True iff no kink condition changes sign on the segment x +- 2H d and every margin dominates its variation."""
+    if not ids:
+        return True
+    g0 = _kink_functions(model, ids, x)
+    gp = _kink_functions(model, ids, x + 2 * H * d)
+    gm = _kink_functions(model, ids, x - 2 * H * d)
+    for i, (fn, a) in g0.items():
+        p, m = gp[i][1], gm[i][1]
+        if a.size == 0:
+            continue
+        var = np.maximum(np.abs(p - a), np.abs(m - a))
+        if np.any(np.sign(p) != np.sign(a)) or np.any(np.sign(m) != np.sign(a)) or np.any(np.abs(a) <= 4 * var + 1e-7):
+            return False
+        if fn == "l2_norm" and np.any(np.abs(a) < 1e-2):
+            return False
+    return True
+
+
+_PREP_CACHE: dict = {}
+
+
+def _case_key(case):
+    return repr(sorted((k, repr(v)) for k, v in case.items()))
+
+
+def _prepare(case):
+    """Cached for the most recent case: `run` calls impl_run, oracle and model_ops for the same case in a row."""
+    key = _case_key(case)
+    if key not in _PREP_CACHE:
+        res = _prepare_uncached(case)
+        _PREP_CACHE.clear()
+        _PREP_CACHE[key] = res
+    else:  # the shared model may have been used for another case in between: restore this case's previous time step
+        model, x, d, census, rec, nodes, attempt, smooth = _PREP_CACHE[key]
+        model.equation_system.set_variable_values(_draw(model, case, attempt)[1], time_step_index=0)
+    return _PREP_CACHE[key]
+
+
+def _prepare_uncached(case):
+    """Model, audited trees and a smooth (state, direction) of the case (the first attempt that passes the margin test)."""
+    cfg = case["config"]
+    model = _model(cfg)
+    es = model.equation_system
+    last = None
+    for attempt in range(MAX_ATTEMPTS):
+        x, xprev, d = _draw(model, case, attempt)
+        es.set_variable_values(xprev, time_step_index=0)
+        census, rec, nodes = audit_trees(model, x)
+        ids = _kink_nodes(rec, nodes)
+        last = (model, x, d, census, rec, nodes, attempt)
+        if _smooth_enough(model, ids, x, d):
+            return last + (True,)
+        _STATS["kink_redraws"] += 1
+    return last + (False,)
+
+
+# ------------------------------------------------------------------------------------------------ oracle
+def _res(es, x):
+    return np.asarray(es.assemble(evaluate_jacobian=False, state=x), dtype=float)
+
+
+def _row_owner(es, i):
+    for name, idx in es.assembled_equation_indices.items():
+        if len(idx) and idx[0] <= i <= idx[-1]:
+            return name, int(i - idx[0])
+    return "?", int(i)
+
+
+def _cfg_str(cfg):
+    return f"{cfg['family']}/{cfg['fractures']}frac/{cfg['grid']}/{cfg.get('dim', 2)}d"
+
+
+def oracle(case):
+    """The property on the real code: J(x) d == d/de residual(x + e d) at e = 0 (discretisation matrices fixed),
+    J, -residual from `assemble(state=x)`, the residual from `assemble(evaluate_jacobian=False, state=...)`."""
+    model, x, d, census, rec, nodes, attempt, smooth = _prepare(case)
+    es = model.equation_system
+    cfg = case["config"]
+    tag = _cfg_str(cfg)
+    if not smooth:
+        _STATS["fd_inconclusive"] += 1
+        return None
+    A, b = es.assemble(state=x)
+    n = es.num_dofs()
+    b = np.asarray(b, dtype=float)
+    if A.shape != (b.size, n):
+        return {"what": f"{tag}: assembled Jacobian has shape {A.shape}, residual has {b.size} rows, {n} dofs", "key": f"shape:{cfg['family']}"}
+    b0 = _res(es, x)
+    scale = 1.0 + np.abs(b)
+    if b0.shape != b.shape or np.any(np.abs(b0 - b) > 1e-12 * scale):
+        i = int(np.argmax(np.abs(b0 - b) / scale)) if b0.shape == b.shape else 0
+        eq, loc = _row_owner(es, i)
+        return {"what": f"{tag}: residual of assemble(evaluate_jacobian=False) differs from the one returned with the Jacobian "
+                        f"(row {i} = {eq}[{loc}]) at state_seed={case['state_seed']}", "key": f"residual-mismatch:{cfg['family']}:{eq}"}
+
+    def D(h):  # derivative of the residual (= -b) along d, central difference
+        return -(_res(es, x + h * d) - _res(es, x - h * d)) / (2 * h)
+
+    D1, D2, D4 = D(H), D(H / 2), D(H / 4)
+    R1, R2 = (4 * D2 - D1) / 3, (4 * D4 - D2) / 3
+    Jd = np.asarray(A @ d).ravel()
+    S = np.asarray(abs(A) @ np.abs(d)).ravel() + np.abs(R1)
+    tol = RTOL * S + ATOL
+    if np.any(np.abs(R1 - R2) > 0.1 * tol):
+        # the finite differences do not agree among themselves: not a statement about the Jacobian
+        _STATS["fd_inconclusive"] += 1
+        return None
+    err = np.abs(Jd - R1)
+    _STATS["checks"] += 1
+    _STATS["rows"] += int(err.size)
+    if err.size:
+        _STATS["max_rel_err"] = max(_STATS["max_rel_err"], float(np.max(err / (S + ATOL / RTOL))))
+    bad = np.nonzero(err > tol)[0]
+    if bad.size:
+        i = int(bad[np.argmax(err[bad] / tol[bad])])
+        eq, loc = _row_owner(es, i)
+        # which variable blocks of the direction are involved in that row
+        cols = [v.name for v in es.variables if np.any(d[es.dofs_of([v])] != 0)]
+        return {"what": f"{tag}: J*delta = {Jd[i]:.12g} but d/de residual = {R1[i]:.12g} (Richardson h={H}, |diff|={err[i]:.3g}, "
+                        f"allowed {tol[i]:.3g}) in row {i} = {eq}[{loc}]; {bad.size} of {err.size} rows differ; "
+                        f"state_seed={case['state_seed']} attempt={attempt} amp={case['amp']} dir={case['dir_kind']}/{case['dir_seed']} "
+                        f"(direction touches {sorted(set(cols))[:6]})",
+                "key": f"jacobian-vs-fd:{cfg['family']}:{eq}"}
+    # `state=x` must mean the same as storing x as the current iterate
+    if case.get("check_state_arg"):
+        old = es.get_variable_values(iterate_index=0).copy()
+        es.set_variable_values(x, iterate_index=0)
+        try:
+            A2, b2 = es.assemble()
+        finally:
+            es.set_variable_values(old, iterate_index=0)
+        if abs(A2 - A).max() > 1e-12 * (1 + abs(A).max()) or np.max(np.abs(np.asarray(b2) - b), initial=0.0) > 1e-12 * (1 + np.max(np.abs(b), initial=0.0)):
+            return {"what": f"{tag}: assemble(state=x) differs from assemble() with x stored as the current iterate (state_seed={case['state_seed']})",
+                    "key": f"state-argument:{cfg['family']}"}
+    return None
+
+
+# ------------------------------------------------------------------------------------------------ generator
+_COUNTER = {"quick": 0, "thorough": 0}
+THOROUGH_3D = [("mom", 1, "cartesian"), ("thm", 1, "cartesian"), ("spf", 2, "cartesian")]
+
+
+def gen_case(rng, tier):
+    k = _COUNTER[tier]
+    _COUNTER[tier] += 1
+    dim = 2
+    if tier == "quick":
+        fam, nf, grid = QUICK_CONFIGS[k % len(QUICK_CONFIGS)]
+    else:
+        pool = ALL_CONFIGS + THOROUGH_3D
+        j = k % len(pool)
+        fam, nf, grid = pool[j]
+        dim = 3 if j >= len(ALL_CONFIGS) else 2
+    return {
+        "config": {"family": fam, "fractures": nf, "grid": grid, "dim": dim},
+        "state_seed": rng.randrange(10**9),
+        "amp": rng.choice([0.5, 0.5, 0.2, 1.0]),
+        "prev_amp": rng.choice([0.0, 0.3, 0.3]),
+        "dir_kind": rng.choice(["dense", "dense", "dense", "block", "block", "unit"]),
+        "dir_seed": rng.randrange(10**9),
+        "node_seed": rng.randrange(10**9),
+        "check_state_arg": rng.random() < 0.34,
+    }
+
+
+# ------------------------------------------------------------------------------------------------ correspondence
+N_NODES = 10  # sampled nodes per case that the driver recomputes
+_ARITH = {"add": "add", "sub": "sub", "mul": "mul", "div": "div", "fn:maximum": "maximum"}
+
+
+def _as_matrix(v):
+    """Constant left factor of a matmul node as a scipy csr matrix (slicers act like their projection matrix)."""
+    import scipy.sparse as sps
+    t = _tag(v)
+    if t == "M":
+        return sps.csr_matrix(v)
+    if t == "L":
+        return sps.csr_matrix(v @ sps.identity(v.domain_size, format="csr"))
+    if t == "LL":
+        out = None
+        for s in v:
+            m = sps.csr_matrix(s @ sps.identity(s.domain_size, format="csr"))
+            out = m if out is None else out + m
+        return sps.csr_matrix(out)
+    raise ValueError(t)
+
+
+def _operand_row(v, i, width):
+    """(value, Jacobian row) of row i of an operand: AdArray, ndarray (zero row) or float (broadcast, zero row)."""
+    t = _tag(v)
+    if t == "A":
+        return float(v.val[i]), np.asarray(v.jac[[i], :].todense()).ravel()
+    if t == "V":
+        a = np.atleast_1d(v)
+        return float(a[i] if a.size > 1 else a[0]), np.zeros(width)
+    if t == "S":
+        return float(v), np.zeros(width)
+    raise ValueError(t)
+
+
+def _sample_nodes(case, rec, nodes, width):
+    """Pick nodes of arithmetic kinds and one row each; return (driver ops, what the real forward mode produced)."""
+    r = random.Random(f"C03-nodes-{case['node_seed']}")
+    cand = []
+    for op in nodes:
+        if id(op) not in rec.results or op.is_leaf() or _tag(rec.results[id(op)]) != "A" or rec.results[id(op)].val.size == 0:
+            continue
+        k = _kind(op, rec)
+        head = k.split("(")[0]
+        if head in _ARITH or head in ("matmul", "pow"):
+            cand.append((op, k, head))
+    r.shuffle(cand)
+    by_kind = {}
+    for c in cand:
+        by_kind.setdefault(c[1], []).append(c)
+    picked = []
+    kinds = sorted(by_kind)
+    r.shuffle(kinds)
+    while len(picked) < N_NODES and any(by_kind.values()):
+        for kd in kinds:
+            if by_kind[kd] and len(picked) < N_NODES:
+                picked.append(by_kind[kd].pop())
+    ops, real = [], []
+    for op, k, head in picked:
+        res = rec.results[id(op)]
+        if res.val.size == 0:
+            continue
+        i = r.randrange(res.val.size)
+        cv = [rec.results[id(c)] for c in op.children]
+        try:
+            if head in _ARITH:
+                a, ja = _operand_row(cv[0], i, width)
+                b, jb = _operand_row(cv[1], i, width)
+                o = {"op": "node", "kind": _ARITH[head], "a": frac(a), "ja": [frac(t) for t in ja], "b": frac(b), "jb": [frac(t) for t in jb]}
+            elif head == "pow":
+                c = cv[1]
+                if _tag(c) != "S" or not float(c).is_integer() or abs(float(c)) > 8:
+                    continue
+                a, ja = _operand_row(cv[0], i, width)
+                o = {"op": "pow", "c": int(float(c)), "a": frac(a), "ja": [frac(t) for t in ja]}
+            else:  # matmul
+                M = _as_matrix(cv[0])
+                row = M.getrow(i)
+                cols = [int(c) for c in row.indices]
+                x = cv[1]
+                jr = np.asarray(x.jac[cols, :].todense()) if cols else np.zeros((0, width))
+                o = {"op": "lin", "width": width, "coef": [frac(t) for t in row.data], "vals": [frac(float(x.val[c])) for c in cols],
+                     "jacs": [[frac(t) for t in jr[q]] for q in range(len(cols))]}
+        except (ValueError, IndexError):
+            continue
+        o["_kind"] = k
+        ops.append(o)
+        real.append({"kind": k, "v": float(res.val[i]), "j": [float(t) for t in np.asarray(res.jac[[i], :].todense()).ravel()]})
+    return ops, real
+
+
+_IMPL_CACHE: dict = {}
+
+
+def _impl(case):
+    key = _case_key(case)
+    if key not in _IMPL_CACHE:
+        model, x, d, census, rec, nodes, attempt, smooth = _prepare(case)
+        ops, real = _sample_nodes(case, rec, nodes, model.equation_system.num_dofs())
+        _IMPL_CACHE.clear()
+        _IMPL_CACHE[key] = (census, ops, real, model.equation_system.num_dofs(), attempt, smooth)
+    return _IMPL_CACHE[key]
+
+
+def impl_run(case):
+    census, ops, real, ndof, attempt, smooth = _impl(case)
+    return {"census": dict(sorted(census.items())), "nodes": real, "dofs": ndof, "attempt": attempt, "smooth": smooth}
+
+
+def model_ops(case):
+    census, ops, real, ndof, attempt, smooth = _impl(case)
+    return [{"op": "census", "kinds": sorted(census)}] + [{k: v for k, v in o.items() if k != "_kind"} for o in ops]
+
+
+def model_decode(outs, case):
+    return {"uncovered": outs[0].get("uncovered"), "covered": outs[0].get("covered"), "nodes": outs[1:]}
+
+
+def compare(impl, model, case):
+    if "harness_exc" in impl:
+        return "the tree auditor crashed on the real trees: " + impl["harness_exc"]
+    if model["uncovered"] is None or model["uncovered"]:
+        return f"{_cfg_str(case['config'])}: node kinds outside the vocabulary covered by the theorems: {model['uncovered']}"
+    for kind, thm in model["covered"]:
+        if "PorepyVerif.C03." + thm not in THEOREMS:
+            return f"kind {kind} is attributed to {thm}, which is not an audited theorem"
+    if len(model["nodes"]) != len(impl["nodes"]):
+        return f"{len(impl['nodes'])} sampled nodes, {len(model['nodes'])} driver answers"
+    for q, (a, b) in enumerate(zip(impl["nodes"], model["nodes"])):
+        if "err" in b:
+            return f"node {q} ({a['kind']}): driver answered {b}"
+        dcmp = deep_compare({"v": a["v"], "j": a["j"]}, {"v": b["v"], "j": b["j"]}, f"node[{q}]<{a['kind']}>", tol=1e-9)
+        if dcmp:
+            return f"{_cfg_str(case['config'])}: forward-mode result of a real node differs from the rule formula: {dcmp}"
+    return None
+
+
+def nontrivial(case):
+    return True
+
+
+def signature(case):
+    c = case["config"]
+    return (c["family"], c["fractures"], c["grid"], c.get("dim", 2), case["state_seed"], case["dir_seed"], case["dir_kind"])
+
+
+def shrink_candidates(case):
+    # simpler directions first, then smaller amplitudes / no previous-time-step perturbation
+    if case["dir_kind"] == "dense":
+        for s in range(6):
+            yield dict(case, dir_kind="block", dir_seed=s)
+    if case["dir_kind"] in ("dense", "block"):
+        for s in range(24):
+            yield dict(case, dir_kind="unit", dir_seed=s)
+    if case["prev_amp"] != 0.0:
+        yield dict(case, prev_amp=0.0)
+    if case.get("check_state_arg"):
+        yield dict(case, check_state_arg=False)
+
+
+def stats(cases, impl_outs):
+    per_model, kinds_total = {}, {}
+    for c, o in zip(cases, impl_outs):
+        if not isinstance(o, dict) or "census" not in o:
+            continue
+        t = _cfg_str(c["config"])
+        pm = per_model.setdefault(t, {"cases": 0, "dofs": o["dofs"], "nodes": sum(o["census"].values()), "kinds": len(o["census"]),
+                                      "opaque_or_anomalous": sorted(k for k in o["census"] if "opaque" in k or "anomalous" in k),
+                                      "function_nodes": {k: v for k, v in o["census"].items() if k.startswith("fn:")}})
+        pm["cases"] += 1
+        for k, v in o["census"].items():
+            kinds_total[k] = max(kinds_total.get(k, 0), v)
+    dk = {}
+    for c in cases:
+        dk[c["dir_kind"]] = dk.get(c["dir_kind"], 0) + 1
+    return {"per_model": per_model, "node_kinds_max_count_per_model": dict(sorted(kinds_total.items())),
+            "directions": dk, "recomputed_nodes": sum(len(o.get("nodes", [])) for o in impl_outs if isinstance(o, dict)),
+            "oracle": dict(_STATS, fd_step=H, rtol=RTOL)}
+
+
+RULE = ("case = (model family x number of fractures x grid type, state seed, direction); the model is built on a 2x2 (or gmsh simplex, "
+        "cell size 0.5) grid with non-trivial O(1) material constants (compressibility, thermal expansion, Biot, dilation, friction ...); "
+        "state = initial state + U(-amp,amp) on every dof, previous time step = U(-0.3,0.3) or 0; states closer to a kink of "
+        "maximum/abs/l2_norm/characteristic_function than 4x the variation over the stencil are re-drawn; direction dense / one variable "
+        "block / one dof; quick: 6 configurations (all five families, 0/1/2 fractures, Cartesian and simplex), thorough: all 30 "
+        "family x fractures x grid combinations + three 3d models; distinct = distinct (configuration, state, direction)")
+TRUSTED = [
+    "CORE: the theorems are about abstract expression trees whose node rules are the formulas of Model.lean/Lemmas.lean; that the real "
+    "operator trees consist of such nodes is checked per run by the tree auditor (census of every node of every equation against the "
+    "Lean vocabulary, plus re-computation over exact rationals of sampled arithmetic / matmul / maximum / integer-power nodes), not proved",
+    "modelled, not verified: the 4800 lines of constitutive-law Python that build the trees; scipy sparse algebra; ArraySlicer (its action "
+    "is taken as that of its projection matrix); transcendental function nodes (exp, log, tan, l2_norm) are covered by theorems over the "
+    "reals but not recomputed by the driver; opaque function nodes (none in the shipped models) are only covered by the oracle",
+    "oracle: central differences with Richardson extrapolation (h=1e-3 and h/2, cross-checked against h/2 and h/4), per-row tolerance "
+    "1e-6*(|J||delta| + |fd|) + 1e-9; discretisation matrices (incl. upwind directions) are held fixed as the property says",
+]
+EXPLANATION = ("CORE/partial: assemble_jac_is_derivative is proved for every expression tree whose node rules are sound at the state "
+               "(chain-rule induction, Frechet and directional form, stacked system with b = -residual); soundness is proved for every node kind "
+               "that occurs in the five shipped model families (tree auditor census is empty outside the vocabulary); the identification of "
+               "the Python trees with the abstract trees is by census + sampled exact re-evaluation, and the property itself is checked on "
+               "the real models by the directional-derivative oracle (relative error observed ~1e-10).")
+ASSUMPTIONS = ["states are sampled in the smooth region (no max/abs/norm/characteristic kink within the finite-difference stencil)",
+               "discretisation matrices are constants of the residual map (no rediscretisation between evaluations)"]
